@@ -163,9 +163,9 @@ macro_rules! define_moments_common {
                     return f64::NAN;
                 }
                 let n = self.n.to_f64().unwrap();
-                (n + 1.) * n * self.central_moment(4)
-                    / ((n - 1.) * (n - 2.) * (n - 3.) * pow(self.central_moment(2), 2))
-                    - 3. * pow(n - 1., 2) / ((n - 2.) * (n - 3.))
+                // Population excess kurtosis, then the standard bias correction.
+                let excess = self.central_moment(4) / pow(self.central_moment(2), 2) - 3.;
+                (n - 1.) / ((n - 2.) * (n - 3.)) * ((n + 1.) * excess + 6.)
             }
 
             /// Add an observation sampled from the population.
